@@ -463,7 +463,12 @@ def run_harness(unit, h, scratch):
 def judge(res, h):
     obs = res['obligations']
     err = [o for o in obs if o['status'] not in ('SUCCESS', 'FAILURE')]
-    if err:
+    hard_fail = [o for o in obs if o['status'] == 'FAILURE' and o['class'] not in ('reach', 'unwind', 'model')]
+    if err and hard_fail:
+        # cbmc leaves obligations UNKNOWN when it stops refining after failures; the failures it did find carry traces and stand
+        obs[:] = [o for o in obs if o['status'] in ('SUCCESS', 'FAILURE')]
+        res['obligations'] = obs
+    elif err:
         raise Undecided('cbmc reported status %s for %d obligations (solver gave up: memory limit or internal error), first: %s'
                         % (err[0]['status'], len(err), err[0]['name']))
     reach = [o for o in obs if o['class'] == 'reach']
@@ -710,12 +715,12 @@ def build_native_lib(scratch):
 
         def cc(src):
             o = os.path.join(nd, os.path.relpath(src, REPO).replace('/', '_') + '.o')
-            rc, so, dt, to = run_nolimit(['g++'] + flags + ['-c', src, '-o', o], nd, 900)
+            rc, so, dt, to = run_nolimit(['g++'] + flags + ['-c', src, '-o', o], nd, 3600)
             return o, rc, so
-        with cf.ThreadPoolExecutor(max_workers=16) as ex:
+        with cf.ThreadPoolExecutor(max_workers=12) as ex:
             for o, rc, so in ex.map(cc, srcs):
                 if rc != 0:
-                    errs.append(so[-1500:])
+                    errs.append('g++ rc=%s on %s: %s' % (rc, os.path.basename(o), so[-1500:]))
                 else:
                     objs.append(o)
         if errs:
